@@ -20,6 +20,8 @@
      AbortContainerOnItemError  an item of a container the loop cannot process (a result nobody waits for,
                            an unreadable object) ends the processing of the container: later items are lost
      NoAckForUnknownResult a result nobody waits for is not acknowledged
+     HintKeyedByServerId   the element-type hint of a vector result is looked up under the server's msg_id
+     NoHintInsideGzip      the hint does not reach a result that travels gzip-packed
    With Dev = {} the properties below hold (checked by TLC); each deviation alone breaks one.
 
    The same module generates schedules for the harness: `hist` records the controllable
@@ -27,7 +29,9 @@
 EXTENDS Integers, Sequences, FiniteSets, TLC
 
 CONSTANTS Callers, MaxTick, MaxRot, MaxAtt, FreshKey, Dev,
-          MaxJunk   \* how many items nobody waits for the server may put into its answers
+          MaxJunk,  \* how many items nobody waits for the server may put into its answers
+          Kinds     \* result kinds callers may ask for: "obj" (self-describing) and/or "vec" (a bare vector: the decoder
+                    \* needs the element type the request registered - the hint)
 
 VARIABLES clock, lastId,
           pc, mid, att, got,      \* per caller
@@ -37,12 +41,15 @@ VARIABLES clock, lastId,
           s2c, loop, salt, store,
           junk,                   \* number of junk items sent so far
           nCont,                  \* content-related server messages the loop has finished with
+          kind,                   \* per caller: result kind of its request
+          hint,                   \* request ids for which an element-type hint is registered
           hist
-vars == <<clock, lastId, pc, mid, att, got, lock, seqNo, tab, c2s, srvNext, srvSalt, srvAcc, srvDone, s2c, loop, salt, store, junk, nCont, hist>>
-view == <<clock, lastId, pc, mid, att, got, lock, seqNo, tab, c2s, srvNext, srvSalt, srvAcc, srvDone, s2c, loop, salt, store, junk, nCont>>
-aux == <<junk, nCont>>
+vars == <<clock, lastId, pc, mid, att, got, lock, seqNo, tab, c2s, srvNext, srvSalt, srvAcc, srvDone, s2c, loop, salt, store, junk, nCont, kind, hint, hist>>
+view == <<clock, lastId, pc, mid, att, got, lock, seqNo, tab, c2s, srvNext, srvSalt, srvAcc, srvDone, s2c, loop, salt, store, junk, nCont, kind, hint>>
+aux == <<junk, nCont, kind, hint>>
 
 None == [t |-> "none"]
+GzChoices == IF "vec" \in Kinds THEN BOOLEAN ELSE {FALSE}     \* gzip only matters for the decoder's hints
 Chan(c) == <<c, att[c]>>
 SvcChan == <<"svc", 0>>
 Outside == "GenIdOutsideLock" \in Dev
@@ -58,6 +65,7 @@ Init ==
   /\ c2s = <<>> /\ srvNext = 1 /\ srvSalt = 0 /\ srvAcc = {} /\ srvDone = {}
   /\ s2c = <<>> /\ loop = [pc |-> "read"] /\ salt = 0 /\ store = 0
   /\ junk = 0 /\ nCont = 0
+  /\ kind \in [Callers -> Kinds] /\ hint = {}
   /\ hist = <<>>
 
 Tick == clock < MaxTick /\ clock' = clock + 1
@@ -68,7 +76,7 @@ FreshId == IF clock > lastId THEN clock ELSE lastId + 1          \* strictly abo
 Begin(c) ==   \* take the send lock first (as specified)
   /\ ~Outside /\ pc[c] = "idle" /\ att[c] <= MaxAtt /\ lock = "none"
   /\ lock' = c /\ pc' = [pc EXCEPT ![c] = "genid"]
-  /\ hist' = Append(hist, [a |-> "Call", c |-> c])
+  /\ hist' = Append(hist, [a |-> "Call", c |-> c, k |-> kind[c]])
   /\ UNCHANGED aux /\ UNCHANGED <<clock, lastId, mid, att, got, seqNo, tab, c2s, srvNext, srvSalt, srvAcc, srvDone, s2c, loop, salt, store>>
 GenId(c) ==
   /\ \/ ~Outside /\ pc[c] = "genid"
@@ -77,20 +85,21 @@ GenId(c) ==
      /\ mid' = [mid EXCEPT ![c] = id]
      /\ lastId' = IF id > lastId THEN id ELSE lastId
   /\ pc' = [pc EXCEPT ![c] = "reg"]
-  /\ hist' = IF Outside THEN Append(hist, [a |-> "Call", c |-> c]) ELSE hist
+  /\ hist' = IF Outside THEN Append(hist, [a |-> "Call", c |-> c, k |-> kind[c]]) ELSE hist
   /\ UNCHANGED aux /\ UNCHANGED <<clock, att, got, lock, seqNo, tab, c2s, srvNext, srvSalt, srvAcc, srvDone, s2c, loop, salt, store>>
 Register(c) ==
   /\ pc[c] = "reg"
   /\ tab' = (mid[c] :> Chan(c)) @@ tab
+  /\ hint' = (IF kind[c] = "vec" THEN hint \cup {mid[c]} ELSE hint) /\ UNCHANGED <<junk, nCont, kind>>
   /\ pc' = [pc EXCEPT ![c] = IF Outside THEN "acquire" ELSE "write"]
-  /\ UNCHANGED aux /\ UNCHANGED <<clock, lastId, mid, att, got, lock, seqNo, c2s, srvNext, srvSalt, srvAcc, srvDone, s2c, loop, salt, store, hist>>
+  /\ UNCHANGED <<clock, lastId, mid, att, got, lock, seqNo, c2s, srvNext, srvSalt, srvAcc, srvDone, s2c, loop, salt, store, hist>>
 Acquire(c) ==
   /\ Outside /\ pc[c] = "acquire" /\ lock = "none"
   /\ lock' = c /\ pc' = [pc EXCEPT ![c] = "write"]
   /\ UNCHANGED aux /\ UNCHANGED <<clock, lastId, mid, att, got, seqNo, tab, c2s, srvNext, srvSalt, srvAcc, srvDone, s2c, loop, salt, store, hist>>
 Write(c) ==   \* write the frame, seq_no += 2, release the lock
   /\ pc[c] = "write" /\ lock = c
-  /\ c2s' = Append(c2s, [id |-> mid[c], seq |-> seqNo + 1, salt |-> salt, who |-> c, kind |-> "req"])
+  /\ c2s' = Append(c2s, [id |-> mid[c], seq |-> seqNo + 1, salt |-> salt, who |-> c, kind |-> "req", rk |-> kind[c]])
   /\ seqNo' = seqNo + 2 /\ lock' = "none"
   /\ pc' = [pc EXCEPT ![c] = "wait"]
   /\ hist' = Append(hist, [a |-> "Release", c |-> c])
@@ -114,13 +123,15 @@ SrvRecv ==
   /\ UNCHANGED aux /\ UNCHANGED <<clock, lastId, pc, mid, att, got, lock, seqNo, tab, c2s, srvSalt, srvDone, loop, salt, store, hist>>
 \* one message answering the requests S (a container when several); j: the container also holds an item
 \* nobody waits for (id 0: a repeated or unsolicited result, an object the client cannot read)
-SrvAnswer(S, j) ==
+\* gz: the results travel gzip-packed
+SrvAnswer(S, j, gz) ==
   /\ (S # {} \/ j) /\ S \subseteq srvAcc
   /\ j => junk < MaxJunk
-  /\ junk' = (IF j THEN junk + 1 ELSE junk) /\ UNCHANGED nCont
-  /\ s2c' = Append(s2c, [t |-> "results", ids |-> S \cup (IF j THEN {0} ELSE {}), content |-> TRUE])
+  /\ junk' = (IF j THEN junk + 1 ELSE junk) /\ UNCHANGED <<nCont, kind, hint>>
+  /\ s2c' = Append(s2c, [t |-> "results", ids |-> S \cup (IF j THEN {0} ELSE {}), content |-> TRUE, gz |-> gz,
+                        vec |-> {id \in S : \E k \in 1..Len(c2s) : c2s[k].id = id /\ c2s[k].rk = "vec"}])
   /\ srvAcc' = srvAcc \ S /\ srvDone' = srvDone \cup S
-  /\ hist' = Append(hist, [a |-> "Answer", who |-> {c2s[k].who : k \in {n \in 1..Len(c2s) : c2s[n].id \in S}}, junk |-> j])
+  /\ hist' = Append(hist, [a |-> "Answer", who |-> {c2s[k].who : k \in {n \in 1..Len(c2s) : c2s[n].id \in S}}, junk |-> j, gz |-> gz])
   /\ UNCHANGED <<clock, lastId, pc, mid, att, got, lock, seqNo, tab, c2s, srvNext, srvSalt, loop, salt, store>>
 SrvRotate ==
   /\ srvSalt < MaxRot /\ srvSalt' = srvSalt + 1
@@ -136,34 +147,47 @@ LoopRead ==
   /\ LET m == Head(s2c) IN
      /\ s2c' = Tail(s2c)
      /\ IF m.t = "results"
-          THEN /\ \E o \in Orders(m.ids) : loop' = [pc |-> "items", todo |-> o, ack |-> m.content, content |-> m.content]
+          THEN /\ \E o \in Orders(m.ids) : loop' = [pc |-> "items", todo |-> o, ack |-> m.content, content |-> m.content, vec |-> m.vec, gz |-> m.gz]
                /\ UNCHANGED <<salt, store>>
           ELSE \* bad_server_salt: adopt and persist the salt, then tell waiter(s) to retry
                /\ salt' = m.new /\ store' = m.new
                /\ IF "NotifyAllOnBadSalt" \in Dev
-                    THEN \E o \in Orders(Keys) : loop' = [pc |-> "notify", todo |-> o, ack |-> FALSE, content |-> FALSE]
-                    ELSE loop' = [pc |-> "notify", todo |-> IF m.id \in Keys THEN <<m.id>> ELSE <<>>, ack |-> FALSE, content |-> FALSE]
+                    THEN \E o \in Orders(Keys) : loop' = [pc |-> "notify", todo |-> o, ack |-> FALSE, content |-> FALSE, vec |-> {}, gz |-> FALSE]
+                    ELSE loop' = [pc |-> "notify", todo |-> IF m.id \in Keys THEN <<m.id>> ELSE <<>>, ack |-> FALSE, content |-> FALSE, vec |-> {}, gz |-> FALSE]
   /\ UNCHANGED aux /\ UNCHANGED <<clock, lastId, pc, mid, att, got, lock, seqNo, tab, c2s, srvNext, srvSalt, srvAcc, srvDone, hist>>
 ReaderOf(ch) == {c \in Callers : pc[c] = "wait" /\ Chan(c) = ch}
 \* hand a result to the caller registered for the request id and forget the entry; a result nobody is
 \* registered for is dropped (as specified) - the loop never blocks on it
+\* can the loop decode the result for request id?  An object describes itself; a bare vector needs the hint
+\* registered under the *request's* id, also when the result travels gzip-packed
+Decodable(id) ==
+  \/ id \notin loop.vec
+  \/ /\ id \in hint
+     /\ "HintKeyedByServerId" \notin Dev            \* as coded: looked up under the server's own msg_id - never there
+     /\ ~("NoHintInsideGzip" \in Dev /\ loop.gz)      \* as coded: the hints did not reach the object inside gzip_packed
 LoopDeliver ==
   /\ loop.pc = "items" /\ loop.todo # <<>>
   /\ LET id == Head(loop.todo) IN
-     IF id \in Keys
-       THEN /\ \E c \in ReaderOf(tab[id]) :
-                 /\ got' = [got EXCEPT ![c] = [t |-> "result", id |-> id]]
-                 /\ pc' = [pc EXCEPT ![c] = "woke"]
-            /\ tab' = [k \in Keys \ {id} |-> tab[k]]
-       ELSE UNCHANGED <<got, pc, tab>>
-  /\ LET id == Head(loop.todo) IN
-     loop' = IF id \in Keys THEN [loop EXCEPT !.todo = Tail(@)]
-             \* as coded: the error of one item ends the processing of the whole container
-             ELSE IF "AbortContainerOnItemError" \in Dev THEN [loop EXCEPT !.todo = <<>>, !.ack = FALSE]
-             \* as coded: a result nobody waits for is an error before the acknowledgement is sent
-             ELSE IF "NoAckForUnknownResult" \in Dev THEN [loop EXCEPT !.todo = Tail(@), !.ack = FALSE]
-             ELSE [loop EXCEPT !.todo = Tail(@)]
-  /\ UNCHANGED aux /\ UNCHANGED <<clock, lastId, mid, att, lock, seqNo, c2s, srvNext, srvSalt, srvAcc, srvDone, s2c, salt, store, hist>>
+     IF id \in Keys /\ ~Decodable(id)
+       THEN \* a vector the decoder cannot type: as coded the receive goroutine dies
+            /\ loop' = [loop EXCEPT !.pc = "dead"]
+            /\ UNCHANGED <<got, pc, tab, hint>>
+       ELSE
+     /\ IF id \in Keys
+          THEN /\ \E c \in ReaderOf(tab[id]) :
+                    /\ got' = [got EXCEPT ![c] = [t |-> "result", id |-> id, rk |-> IF id \in loop.vec THEN "vec" ELSE "obj"]]
+                    /\ pc' = [pc EXCEPT ![c] = "woke"]
+               /\ tab' = [k \in Keys \ {id} |-> tab[k]]
+               /\ hint' = hint \ {id}
+          ELSE UNCHANGED <<got, pc, tab, hint>>
+     /\ loop' = IF id \in Keys THEN [loop EXCEPT !.todo = Tail(@)]
+                \* as coded: the error of one item ends the processing of the whole container
+                ELSE IF "AbortContainerOnItemError" \in Dev THEN [loop EXCEPT !.todo = <<>>, !.ack = FALSE]
+                \* as coded: a result nobody waits for is an error before the acknowledgement is sent
+                ELSE IF "NoAckForUnknownResult" \in Dev THEN [loop EXCEPT !.todo = Tail(@), !.ack = FALSE]
+                ELSE [loop EXCEPT !.todo = Tail(@)]
+  /\ UNCHANGED <<junk, nCont, kind>>
+  /\ UNCHANGED <<clock, lastId, mid, att, lock, seqNo, c2s, srvNext, srvSalt, srvAcc, srvDone, s2c, salt, store, hist>>
 LoopNotify ==
   /\ loop.pc = "notify" /\ loop.todo # <<>>
   /\ LET k == Head(loop.todo) IN
@@ -171,28 +195,29 @@ LoopNotify ==
           /\ got' = [got EXCEPT ![c] = [t |-> "retry"]]
           /\ pc' = [pc EXCEPT ![c] = "woke"]
      /\ tab' = IF "StaleEntryAfterNotify" \in Dev THEN tab ELSE [j \in Keys \ {k} |-> tab[j]]
+     /\ hint' = IF "StaleEntryAfterNotify" \in Dev THEN hint ELSE hint \ {k}
   /\ loop' = [loop EXCEPT !.todo = Tail(@)]
-  /\ UNCHANGED aux /\ UNCHANGED <<clock, lastId, mid, att, lock, seqNo, c2s, srvNext, srvSalt, srvAcc, srvDone, s2c, salt, store, hist>>
+  /\ UNCHANGED <<junk, nCont, kind>> /\ UNCHANGED <<clock, lastId, mid, att, lock, seqNo, c2s, srvNext, srvSalt, srvAcc, srvDone, s2c, salt, store, hist>>
 \* end of a message: acknowledge it if it was content-related (through the send path), else read on
 LoopEnd ==
   /\ loop.pc \in {"items", "notify"} /\ loop.todo = <<>>
   /\ IF loop.ack
        THEN /\ lock = "none"
-            /\ c2s' = Append(c2s, [id |-> FreshId, seq |-> seqNo, salt |-> salt, who |-> "loop", kind |-> "ack"])
+            /\ c2s' = Append(c2s, [id |-> FreshId, seq |-> seqNo, salt |-> salt, who |-> "loop", kind |-> "ack", rk |-> "obj"])
             /\ lastId' = FreshId /\ seqNo' = seqNo + 2
        ELSE UNCHANGED <<c2s, lastId, seqNo>>
   /\ loop' = [pc |-> "read"]
-  /\ nCont' = (IF loop.content THEN nCont + 1 ELSE nCont) /\ UNCHANGED junk
+  /\ nCont' = (IF loop.content THEN nCont + 1 ELSE nCont) /\ UNCHANGED <<junk, kind, hint>>
   /\ UNCHANGED <<clock, pc, mid, att, got, lock, tab, srvNext, srvSalt, srvAcc, srvDone, s2c, salt, store, hist>>
 
 Finished == (\A c \in Callers : pc[c] = "done" \/ att[c] > MaxAtt) /\ UNCHANGED vars
 Next ==
   \/ Finished \/ Tick \/ SrvRecv \/ SrvRotate \/ LoopRead \/ LoopDeliver \/ LoopNotify \/ LoopEnd
   \/ \E c \in Callers : Begin(c) \/ GenId(c) \/ Register(c) \/ Acquire(c) \/ Write(c) \/ Wake(c)
-  \/ \E S \in SUBSET srvAcc, j \in BOOLEAN : SrvAnswer(S, j)
+  \/ \E S \in SUBSET srvAcc, j \in BOOLEAN, gz \in GzChoices : SrvAnswer(S, j, gz)
 Fair == /\ WF_vars(SrvRecv) /\ WF_vars(LoopRead) /\ WF_vars(LoopDeliver) /\ WF_vars(LoopNotify) /\ WF_vars(LoopEnd)
         /\ \A c \in Callers : WF_vars(Begin(c) \/ GenId(c) \/ Register(c) \/ Acquire(c) \/ Write(c) \/ Wake(c))
-        /\ WF_vars(\E S \in SUBSET srvAcc : S # {} /\ SrvAnswer(S, FALSE))
+        /\ WF_vars(\E S \in SUBSET srvAcc : S # {} /\ SrvAnswer(S, FALSE, FALSE))
 Spec == Init /\ [][Next]_vars /\ Fair
 
 (* ---------------- properties ---------------- *)
@@ -202,6 +227,9 @@ SeqNoRules == /\ \A a \in 1..Len(c2s) : (c2s[a].seq % 2 = 1) = (c2s[a].kind = "r
               /\ \A a, b \in 1..Len(c2s) : a < b => c2s[a].seq <= c2s[b].seq
 \* C09: a caller only ever receives the result addressed to its own request
 OwnResult == \A c \in Callers : got[c].t = "result" => got[c].id = mid[c]
+\* C09: a caller that asked for a vector receives the typed vector
+TypedVector == \A c \in Callers : got[c].t = "result" => got[c].rk = kind[c]
+LoopAlive == loop.pc # "dead"
 \* C11: a request the server accepted is never sent a second time
 AcceptedNeverResent == \A c \in Callers :
    Cardinality({k \in 1..Len(c2s) : c2s[k].who = c /\ c2s[k].id \in (srvAcc \cup srvDone)}) <= 1
